@@ -206,4 +206,8 @@ theorem rebuildReal_spec (conj : α → α) (z : α) (W b : Nat) (taps : List α
         · have : ¬ k < b + len := by omega
           simp only [hkb, if_false, this]
 
+theorem getD_map_range (f : Nat → α) (n j : Nat) (z : α) (hj : j < n) :
+    ((List.range n).map f).getD j z = f j := by
+  simp [List.getD, List.getElem?_map, List.getElem?_range hj]
+
 end PdsVerif.BankIndexLemmas
